@@ -14,6 +14,7 @@ import (
 	"os"
 	"os/exec"
 	"path/filepath"
+	"regexp"
 	"runtime"
 	"sort"
 	"strconv"
@@ -541,6 +542,53 @@ func (c *cluster) logStats() map[string]int {
 		}
 	}
 	return out
+}
+
+// checkpointEvidence extracts from the node logs what is needed to tell whether a
+// checkpoint that was later restored had been reported "frozen" before it was finished:
+// every backup with its duration, every restore, every snapshot installation and WAL replay.
+var reLogLine = regexp.MustCompile(`"ts":"([^"]*)".*"msg":"(.*)"\}\s*$`)
+
+func (c *cluster) checkpointEvidence() (lines []string, slowBackups map[string]time.Duration, restored map[string]bool) {
+	slowBackups, restored = map[string]time.Duration{}, map[string]bool{}
+	reCost := regexp.MustCompile(`backup done \(cost ([^)]*)\), check point to: (\S+?)(\\n)?$`)
+	reName := regexp.MustCompile(`[0-9a-f]{16}-[0-9a-f]{16}`)
+	for i, n := range c.nodes {
+		b, err := os.ReadFile(n.logPath)
+		if err != nil {
+			continue
+		}
+		for _, l := range strings.Split(string(b), "\n") {
+			if !(strings.Contains(l, "backup done (cost") || strings.Contains(l, "begin restore from checkpoint") ||
+				strings.Contains(l, "applying snapshot at index") || strings.Contains(l, "loading snapshot at term") ||
+				strings.Contains(l, "replaying WAL") || strings.Contains(l, "===== start #")) {
+				continue
+			}
+			ts, msg := "", l
+			if m := reLogLine.FindStringSubmatch(l); m != nil {
+				ts, msg = m[1], m[2]
+			}
+			if len(msg) > 260 {
+				msg = msg[:260]
+			}
+			if m := reCost.FindStringSubmatch(msg); m != nil {
+				if d, err := time.ParseDuration(m[1]); err == nil && d > 20*time.Millisecond {
+					if nm := reName.FindString(m[2]); nm != "" {
+						slowBackups[nm] = d
+					}
+				} else if err == nil && d <= 20*time.Millisecond {
+					continue // a checkpoint that finished before the "frozen" timer fired is of no interest
+				}
+			}
+			if strings.Contains(msg, "begin restore from checkpoint") {
+				if nm := reName.FindString(msg); nm != "" {
+					restored[nm] = true
+				}
+			}
+			lines = append(lines, fmt.Sprintf("n%d %s %s", i, ts, msg))
+		}
+	}
+	return
 }
 
 func (c *cluster) logTail(i int, nbytes int) string {
